@@ -576,6 +576,11 @@ void ExpressionBuilder::expr_dot(const char* id)
 {
     expression_t expr = fragments[0];
     type_t type = expr.get_type();
+    if ((type.is_process() || type.is(PROCESS_VAR)) && expr.get_symbol() == symbol_t()) {
+        // The value of e.g. "sum (p : Child) p" has the type of a process (variable) but names none.
+        handle_error(IsNotAStructError(expr.str(true)));
+        return;
+    }
     if (type.is_record()) {
         auto i = type.find_index_of(id);
         if (!i) {
